@@ -203,6 +203,8 @@ def rows (A : FMat α) : List (List α) :=
 def force (o : Ops α) (A : FMat α) : FMat α := ofRows o A.n A.rows
 def mul (o : Ops α) (A B : FMat α) : FMat α :=
   force o ⟨A.n, fun i j => sumL o ((List.range A.n).map fun k => o.mul (A.get i k) (B.get k j))⟩
+/-- product of tabulated copies of the operands (lazy operands would be re-evaluated `n` times) -/
+def mulF (o : Ops α) (A B : FMat α) : FMat α := mul o (force o A) (force o B)
 def dagger (o : Ops α) (A : FMat α) : FMat α := ⟨A.n, fun i j => o.conj (A.get j i)⟩
 def smul (o : Ops α) (c : α) (A : FMat α) : FMat α := ⟨A.n, fun i j => o.mul c (A.get i j)⟩
 /-- `Qobj * scalar` -/
@@ -242,7 +244,7 @@ def stepDm (o : Ops α) (N : Nat) (op : Op α) (ρ : FMat α) : Except Err (FMat
   | .gate qs m U =>
     match expandV o N qs m (FMat.ofRows o (2 ^ m) U) with
     | .error e => .error e
-    | .ok E => .ok (FMat.mul o (FMat.mul o E ρ) (FMat.dagger o E))
+    | .ok E => .ok (FMat.mulF o (FMat.mulF o E ρ) (FMat.dagger o E))
 
 def runDm (o : Ops α) (N : Nat) : List (Op α) → FMat α → Except Err (FMat α)
   | [], ρ => .ok ρ
@@ -290,7 +292,7 @@ the loop starts from (returned for the empty list) -/
 def seqProduct (o : Ops α) (ltr : Bool) : Option (FMat α) → List (FMat α) → Option (FMat α)
   | acc, [] => acc
   | none, U :: rest => seqProduct o ltr (some U) rest
-  | some A, U :: rest => seqProduct o ltr (some (if ltr then FMat.mul o U A else FMat.mul o A U)) rest
+  | some A, U :: rest => seqProduct o ltr (some (if ltr then FMat.mulF o U A else FMat.mulF o A U)) rest
 
 /-! ## (d) The compact product -/
 
@@ -332,7 +334,7 @@ def multSublists (o : Ops α) (ord : List Nat → List Nat → List Nat)
   -- ind_map = {ind: pos for ind, pos in zip(revised_inds, sorted_positions)}
   let indMap : Nat → Nat := fun q => sp.getD (revised.idxOf q) 0
   match expandV o N (indsSub.map indMap) indsSub.length Usub, expandV o N (inds.map indMap) inds.length U with
-  | .ok Es, .ok Eu => .ok (rest ++ [(FMat.mul o Eu Es, revised)])
+  | .ok Es, .ok Eu => .ok (rest ++ [(FMat.mulF o Eu Es, revised)])
   | .error e, _ => .error e
   | _, .error e => .error e
 
@@ -362,7 +364,7 @@ def gspLoop (o : Ops α) (ord : List Nat → List Nat → List Nat)
       match expandOverall o (st.getD []), rec ((U, inds) :: rest) with
       | .ok (Uo, oi), .ok (Ul, ri) =>
         match expandV o nq ri ri.length Ul with
-        | .ok El => .ok (FMat.mul o El Uo, oi.map fun i => sortedInds.getD i 0)
+        | .ok El => .ok (FMat.mulF o El Uo, oi.map fun i => sortedInds.getD i 0)
         | .error e => .error e
       | .error e, _ => .error e
       | _, .error e => .error e
@@ -440,9 +442,11 @@ def norm : Nat → Cyc → CycD
 def zero : CycD := ⟨0, Cyc.zero⟩
 def one : CycD := ⟨0, Cyc.one⟩
 def add (a b : CycD) : CycD :=
+  if a.v = Cyc.zero then b else if b.v = Cyc.zero then a else
   let m := max a.e b.e
   norm m (Cyc.add (Cyc.smul (2 ^ (m - a.e)) a.v) (Cyc.smul (2 ^ (m - b.e)) b.v))
-def mul (a b : CycD) : CycD := norm (a.e + b.e) (Cyc.mul a.v b.v)
+def mul (a b : CycD) : CycD :=
+  if a.v = Cyc.zero || b.v = Cyc.zero then zero else norm (a.e + b.e) (Cyc.mul a.v b.v)
 def conj (a : CycD) : CycD := ⟨a.e, Cyc.conj a.v⟩
 def ops : Ops CycD := ⟨zero, one, add, mul, conj⟩
 end CycD
